@@ -22,14 +22,16 @@ fn run_case(case: &str) -> String
 	let addr = u32::from_str_radix(t[1], 16).unwrap();
 	let vseed = u64::from_str_radix(t[2], 16).unwrap();
 	let target = if t[3] == "-" { 0 } else { parse_hex_i64(t[3]) };
-	let (i, _) = parse_instr(&t[4..]);
+	let (i, used) = parse_instr(&t[4..]);
+	// optional trailing "! <bias hex>": every immediate is written as value + bias
+	let bias = if t.len() > 4 + used + 1 && t[4 + used] == "!" { parse_hex_i64(t[4 + used + 1]) } else { 0 };
 	let mut rng = Rng::new(vseed);
 	let mut uniq = 0u32;
-	let r = render(&i, target, &mut rng, true, &mut uniq);
+	let (r, nbiased) = render_biased(&i, target, &mut rng, true, &mut uniq, bias);
 	let src = format!("{}.addr 0x{:X};\n{}\n{}", r.pre, addr, r.stmt, r.post);
 	let res = run_pipeline(src.as_bytes(), "c04.asm");
 	let bytes = match res.regions.iter().find(|(a, _)| *a == addr) { Some((_, d)) => hex_bytes(d), None => "-".into() };
-	format!("src={} | asm={} bytes={} diags={}", hex_bytes(src.as_bytes()), res.fmt_status(), bytes, res.fmt_diags())
+	format!("src={} | asm={} bytes={} diags={} biased={}", hex_bytes(src.as_bytes()), res.fmt_status(), bytes, res.fmt_diags(), nbiased)
 }
 
 fn near(rng: &mut Rng, centers: &[i64]) -> i64 { *rng.pick(centers) + rng.range(-3, 3) }
@@ -94,15 +96,17 @@ fn main()
 	let mut rng = Rng::new(seed);
 	let addrs: [u32; 17] = [0, 2, 0x10000000, 0x10000001, 0x10000002, 0x10000003, 0x20000000, 0x20000001, 0x20000002, 0x20000003,
 		0x7FFFFFFE, 0x80000000, 0xFFFFFFF0, 0xFFFFFFF4, 0xFFFFFFF8, 0xFFFFFFFA, 0xFFFFFFFC];
-	let mut emit = |addr: u32, target: Option<i64>, i: &Instruction, rng: &mut Rng, out: &mut Out|
+	let mut emit_b = |addr: u32, target: Option<i64>, i: &Instruction, rng: &mut Rng, out: &mut Out, bias: i64|
 	{
 		let vseed = rng.next();
 		if sh.mine()
 		{
-			let c = format!("A {:x} {:x} {} {}", addr, vseed, match target { Some(t) => hex_i64(t), None => "-".into() }, fmt_instr(i));
+			let mut c = format!("A {:x} {:x} {} {}", addr, vseed, match target { Some(t) => hex_i64(t), None => "-".into() }, fmt_instr(i));
+			if bias != 0 { c.push_str(&format!(" ! {}", hex_i64(bias))); }
 			let r = run_case(&c); out.line(&c, &r);
 		}
 	};
+	macro_rules! emit { ($a:expr, $t:expr, $i:expr, $r:expr, $o:expr) => { emit_b($a, $t, $i, $r, $o, 0) } }
 	// (1) every encodable 16-bit instruction (all decodable halfwords), PC-relative ones with their target
 	let reps = if thorough { 4 } else { 1 };
 	for _ in 0..reps { for h in 0..=0xFFFFu32
@@ -117,7 +121,7 @@ fn main()
 				Instruction::Ldr{addr: Register::PC, off: ImmReg::Immediate(off), ..} => Some((addr & !3) as i64 + 4 + off as i64),
 				_ => None,
 			};
-			emit(addr, target, &i, &mut rng, &mut out);
+			emit!(addr, target, &i, &mut rng, &mut out);
 		}
 	}}
 	// (2) PC-relative boundaries: every range edge, misalignment, and targets outside the u32 space
@@ -125,21 +129,46 @@ fn main()
 	{
 		for c in 0..15u8 { for off in [-2050i64, -2048, -2047, -2046, -258, -256, -255, -254, -4, -2, -1, 0, 1, 2, 252, 254, 255, 256, 2044, 2046, 2047, 2048]
 		{
-			emit(addr, Some(addr as i64 + 4 + off), &Instruction::B{cond: cond(c), off: 0}, &mut rng, &mut out);
+			emit!(addr, Some(addr as i64 + 4 + off), &Instruction::B{cond: cond(c), off: 0}, &mut rng, &mut out);
 		}}
 		for off in [-16777218i64, -16777216, -16777215, -16777214, -2, 0, 1, 2, 16777212, 16777214, 16777215, 16777216, 16777218]
 		{
-			emit(addr, Some(addr as i64 + 4 + off), &Instruction::Bl{off: 0}, &mut rng, &mut out);
+			emit!(addr, Some(addr as i64 + 4 + off), &Instruction::Bl{off: 0}, &mut rng, &mut out);
 		}
 		for off in [-4i64, -1, 0, 1, 2, 3, 4, 1016, 1019, 1020, 1021, 1024, 65536, 65540]
 		{
 			for d in [0u8, 7, 8] {
-				emit(addr, Some((addr & !3) as i64 + 4 + off), &Instruction::Adr{dst: reg(d), off: 0}, &mut rng, &mut out);
-				emit(addr, Some((addr & !3) as i64 + 4 + off), &Instruction::Ldr{dst: reg(d), addr: reg(15), off: ImmReg::Immediate(0)}, &mut rng, &mut out);
+				emit!(addr, Some((addr & !3) as i64 + 4 + off), &Instruction::Adr{dst: reg(d), off: 0}, &mut rng, &mut out);
+				emit!(addr, Some((addr & !3) as i64 + 4 + off), &Instruction::Ldr{dst: reg(d), addr: reg(15), off: ImmReg::Immediate(0)}, &mut rng, &mut out);
+			}
+		}
+	}
+	// (2b) values the operand types cannot hold: every immediate / target written as v + k * 2^32 (or near the i64
+	// extremes): must be diagnosed, never reduced modulo 2^32
+	{
+		let biases: [i64; 6] = [1 << 32, -(1 << 32), 1 << 33, 1 << 40, 1 << 62, -(1 << 62)];
+		let n = if thorough { 60_000 } else { 6_000 };
+		let mut k = 0;
+		while k < n
+		{
+			let h = rng.below(0x10000) as u16;
+			if let Ok((2, i)) = Instruction::decode(&h.to_le_bytes())
+			{
+				let addr = *rng.pick(&addrs);
+				let target = match i
+				{
+					Instruction::B{off, ..} => Some(addr as i64 + 4 + off as i64),
+					Instruction::Adr{off, ..} => Some((addr & !3) as i64 + 4 + off as i64),
+					Instruction::Ldr{addr: Register::PC, off: ImmReg::Immediate(off), ..} => Some((addr & !3) as i64 + 4 + off as i64),
+					_ => None,
+				};
+				let bias = *rng.pick(&biases);
+				emit_b(addr, target, &i, &mut rng, &mut out, bias);
+				k += 1;
 			}
 		}
 	}
 	// (3) 32-bit and random (mostly encodable, many just outside) instructions
 	let nrand = if thorough { 600_000 } else { 40_000 };
-	for _ in 0..nrand { let i = random_instr(&mut rng); if is_pcrel(&i) { continue; } let addr = *rng.pick(&addrs); emit(addr, None, &i, &mut rng, &mut out); }
+	for _ in 0..nrand { let i = random_instr(&mut rng); if is_pcrel(&i) { continue; } let addr = *rng.pick(&addrs); emit!(addr, None, &i, &mut rng, &mut out); }
 }
